@@ -75,6 +75,21 @@ WordsCoherent ==
     /\ RunEnds(a) = { r[2] : r \in WordRuns(a) }
     /\ Cardinality(RunStarts(a)) = Cardinality(WordRuns(a))
     /\ \A p \in 0..Len(a) : (p \in RunStarts(a) \/ p \in RunEnds(a)) => IsWordBoundary(a, p)
+(* UTF-8: code point lengths add up to the byte length, character starts are exactly the non-        *)
+(* continuation bytes, decoding distributes over concatenation, the lead byte announces the length    *)
+EncLen(cp) == IF cp < 128 THEN 1 ELSE IF cp < 2048 THEN 2 ELSE IF cp < 65536 THEN 3 ELSE 4
+RECURSIVE SumEnc(_, _)
+SumEnc(d, i) == IF i > Len(d) THEN 0 ELSE EncLen(d[i]) + SumEnc(d, i + 1)
+Utf8Coherent ==
+    /\ Len(a) > 0 => SeqLenAt(a, 1) \in {0, LeadByteLen(a[1])}
+    /\ IsUtf8(a) =>
+          /\ SumEnc(Decode(a), 1) = Len(a)
+          /\ Len(CharStarts(a)) = CharCount(a)
+          /\ { CharStarts(a)[i] : i \in 1..Len(CharStarts(a)) } = { p \in 0..(Len(a) - 1) : ~IsCont(a[p + 1]) }
+          /\ \A i \in 1..CharCount(a) : Decode(a)[i] \in 0..1114111 /\ Decode(a)[i] \notin 55296..57343
+          /\ BackToBoundary(a, Len(a)) = Len(a)
+          /\ \A b \in { x \in Dom : Len(x) <= 2 } : IsUtf8(b) => Decode(a \o b) = Decode(a) \o Decode(b)
+    /\ (Len(a) > 0 /\ a[1] \in {128, 130, 159, 169}) => ~IsUtf8(a)            \* a continuation byte cannot start a string
 CaseCoherent ==
     /\ ToLower(ToUpper(a)) = ToLower(a) /\ ToUpper(ToLower(a)) = ToUpper(a)
     /\ ToLower(ToLower(a)) = ToLower(a)
